@@ -156,7 +156,7 @@ pub fn run(tier: &str, seed: u64, out: &str) {
         if layers == usize::MAX {
             continue; // thorough tier only
         }
-        let states = neighbourhood(&mg, &rep, fen, layers);
+        let states = neighbourhood(crate::eng::tl_mg(), &rep, fen, layers);
         let mut jobs: Vec<(Board, u8, bool)> = Vec::new();
         for b in &states {
             for k in 1..=3u8 {
@@ -182,7 +182,7 @@ pub fn run(tier: &str, seed: u64, out: &str) {
                 }
             }
         }
-        let results: Vec<(bool, Option<Class>, u64)> = par_map(&jobs, |(b, k, fixed)| check_one(&cache, &mg, &rep, b, *k, *fixed));
+        let results: Vec<(bool, Option<Class>, u64)> = par_map(&jobs, |(b, k, fixed)| check_one(&cache, crate::eng::tl_mg(), &rep, b, *k, *fixed));
         let mut o = Outcome { searched: 0, skipped_excluded: 0, skipped_deeper_reuse: 0, won: 0, lost: 0, exact: 0 };
         for (ok, class, deeper) in &results {
             o.searched += 1;
@@ -232,7 +232,7 @@ pub fn run(tier: &str, seed: u64, out: &str) {
         for fen in crate::props::c08::TACTICAL_ROOTS {
             let p = Pos::from_fen(fen).unwrap();
             for q in [p.clone(), p.mirror()] {
-                let states = neighbourhood(&mg, &rep, &q.fen(0, 1), 1);
+                let states = neighbourhood(crate::eng::tl_mg(), &rep, &q.fen(0, 1), 1);
                 let small = is_small("", fen);
                 for (i, b) in states.iter().enumerate() {
                     let maxd: u8 = if i == 0 {
@@ -249,7 +249,7 @@ pub fn run(tier: &str, seed: u64, out: &str) {
                 n_roots += 1;
             }
         }
-        let results: Vec<(bool, Option<Class>, u64)> = par_map(&jobs, |(b, k, fixed)| check_one(&cache, &mg, &rep, b, *k, *fixed));
+        let results: Vec<(bool, Option<Class>, u64)> = par_map(&jobs, |(b, k, fixed)| check_one(&cache, crate::eng::tl_mg(), &rep, b, *k, *fixed));
         let mut o = Outcome { searched: 0, skipped_excluded: 0, skipped_deeper_reuse: 0, won: 0, lost: 0, exact: 0 };
         for (ok, class, deeper) in &results {
             o.searched += 1;
@@ -313,7 +313,7 @@ pub fn run(tier: &str, seed: u64, out: &str) {
                 }
             }
         }
-        let results: Vec<(bool, Option<Class>, u64)> = par_map(&jobs, |(b, k, fixed)| check_one(&cache, &mg, &rep, b, *k, *fixed));
+        let results: Vec<(bool, Option<Class>, u64)> = par_map(&jobs, |(b, k, fixed)| check_one(&cache, crate::eng::tl_mg(), &rep, b, *k, *fixed));
         let mut o = Outcome { searched: 0, skipped_excluded: 0, skipped_deeper_reuse: 0, won: 0, lost: 0, exact: 0 };
         for (ok, class, deeper) in &results {
             o.searched += 1;
@@ -388,7 +388,7 @@ pub fn replay_one(fen: &str, k: u8, fixed: bool) -> i32 {
     let mg = MoveGenerator::new();
     let cache = RefCache::new(200_000);
     let b = eng::board_of_fen(&format!("{} 0 1", Pos::from_fen(fen).unwrap().fen4())).unwrap();
-    let (ok, class, deeper) = check_one(&cache, &mg, &rep, &b, k, fixed);
+    let (ok, class, deeper) = check_one(&cache, crate::eng::tl_mg(), &rep, &b, k, fixed);
     let v = rep.violations.lock().unwrap();
     for x in v.iter() {
         println!("REPLAY-VIOLATION {} :: {}", x.sig, x.text);
